@@ -411,6 +411,53 @@ pub fn run_c16(ctx: &Ctx) -> ! {
         }
     }
     // status decoding through the header, and the success classification
+    // ... for every protocol version and request-id a response can carry (decoding is a function of the code alone),
+    // on a header built in memory and on one that went through the parser
+    let versions: [u16; 8] = [0x0101, 0x0100, 0x0200, 0x0201, 0x0202, 0x0000, 0x0300, 0xffff];
+    let request_ids: [u32; 3] = [1, 0, 0xffff_ffff];
+    for c in 0..=0xffffu32 {
+        for (vi, ver) in versions.iter().enumerate() {
+            for rid in request_ids {
+                if vi > 0 && rid != 1 && c >= 0x0600 && c < 0xff00 {
+                    continue; // the request-id dimension is swept for the populated code ranges
+                }
+                for parsed in [false, true] {
+                    st.evaluations += 1;
+                    let h = if parsed {
+                        let wire = [(*ver >> 8) as u8, *ver as u8, (c >> 8) as u8, c as u8, (rid >> 24) as u8, (rid >> 16) as u8, (rid >> 8) as u8, rid as u8, 0x03];
+                        match ipp::parser::IppParser::new(ipp::reader::IppReader::new(std::io::Cursor::new(wire.to_vec()))).parse() {
+                            Ok(r) => r.header().clone(),
+                            Err(_) => {
+                                // whether a parser accepts this version is not this property's business
+                                st.count("responses_not_accepted_by_the_parser", 1);
+                                continue;
+                            }
+                        }
+                    } else {
+                        IppHeader::new(IppVersion(*ver), c as u16, rid)
+                    };
+                    let s = h.status_code();
+                    let case = json!({"table": "status_code()", "code": c, "version": ver, "request_id": rid, "parsed": parsed});
+                    let how = format!("(version {:#06x}, request-id {}, {})", ver, rid, if parsed { "parsed response" } else { "header built in memory" });
+                    let registered = reg::lookup_code(reg::STATUS, c).is_some();
+                    if registered {
+                        if s as u16 as u32 != c {
+                            st.violate("status_code:wrong-symbol", format!("header status {:#06x} decodes to {:?} ({:#06x}) {}", c, s, s as u16, how), case.clone());
+                        }
+                    } else if !(s == StatusCode::UnknownStatusCode || s as u16 as u32 == c) {
+                        st.violate("status_code:alias", format!("unregistered status {:#06x} decodes to {:?} ({:#06x}) {}", c, s, s as u16, how), case.clone());
+                    }
+                    let ok = s.is_success();
+                    if c <= 2 && !ok {
+                        st.violate("is_success:false-negative", format!("status {:#06x} ({:?}) is not reported as success {}", c, s, how), case.clone());
+                    }
+                    if c >= 0x100 && ok {
+                        st.violate("is_success:false-positive", format!("status {:#06x} ({:?}) is reported as success {}", c, s, how), case.clone());
+                    }
+                }
+            }
+        }
+    }
     for c in 0..=0xffffu32 {
         st.evaluations += 1;
         st.transitions += 1;
